@@ -258,9 +258,42 @@ class World:
             self.cb_count += 1
             self.cb_by_kind[kind] = self.cb_by_kind.get(kind, 0) + 1
             self._maybe_raise("cb", kind)
+            p = self.plan
+            if p and "fault" in p and p["fault"]["site"] == "cbi" and self.cb_count == p["fault"]["k"]:
+                return self._call_with_inner_fault(fn, a, k, kind, p["fault"])
             return fn(*a, **k)
 
         return wrapped
+
+    def _call_with_inner_fault(self, fn, a, k, kind, f):
+        """The callback itself raises part-way: the exception is raised at the j-th line event
+        executed inside optyx code (the compiled closures) during this one callback."""
+        import sys as _sys
+
+        count = [0]
+        fired = [False]
+
+        def local(frame, event, arg):
+            if event == "line":
+                count[0] += 1
+                if count[0] == f["j"]:
+                    fired[0] = True
+                    self.fired.append({"fault": "cbi", "k": f["k"], "j": f["j"], "kind": kind, "exc": f["exc"], "seq": self.seq,
+                                       "where": frame.f_code.co_name})
+                    raise EXC[f["exc"]](f"injected {f['exc']} inside callback {f['k']} ({kind}) at optyx line event {f['j']}")
+            return local
+
+        def tracer(frame, event, arg):
+            if event == "call" and "/optyx/" in frame.f_code.co_filename:
+                return local
+            return None
+
+        old = _sys.gettrace()
+        _sys.settrace(tracer)
+        try:
+            return fn(*a, **k)
+        finally:
+            _sys.settrace(old)
 
     # ------------------------------------------------------------------ minimize peer
     def sim_minimize(
